@@ -340,6 +340,18 @@ def _scratch_index_setitem(A, x):
     return buf * A.sum(w)
 
 
+def _scratch_index_in_tuple(A, x):
+    # a scratch index array INSIDE an index tuple (x[idx, 1]), refilled between uses
+    idx = np.array([0, 2])
+    a = x[idx, 1]
+    idx[:] = [1, 1]
+    b = x[idx, 0]
+    idx[:] = [1, 0]
+    c = x[1:, idx[0:1]]
+    idx[:] = [0, 0]
+    return a * b + A.sum(c)
+
+
 def _paused(A, x):
     # recording is suspended with trace_off() and resumed with trace_on(): what ran while
     # recording was on is on the tape, what ran in between is not
@@ -484,6 +496,7 @@ def catalogue(ndonly=False):
     add('write through real() of a real-valued node', _real_of_real_alias, group='buffer')
     add('scratch index / exponent / matrix constants re-used during recording', _scratch_index_and_exponent, dom='pos', group='buffer')
     add('item assignment through a scratch index array refilled between writes', _scratch_index_setitem, group='buffer')
+    add('scratch index array inside an index tuple, refilled between uses', _scratch_index_in_tuple, shape=(3, 2), group='buffer')
     add('paused recording', _paused, group='buffer')
     add('paused recording twice', _paused_twice, group='buffer')
     add('prod(x)+sum(x*x)', lambda A, x: A.prod(x) + A.sum(x * x), group='reduce')
